@@ -8,7 +8,9 @@ the verdict.  Every scenario is run by execute_bdd (behave, in-process) and the 
 is read from behave's JSON report; the oracle executes the same actions on a plain Interpreter and
 evaluates the asserted fact directly on the macro steps / interpreter state."""
 import collections
+import copy
 import itertools
+import types
 import json
 import os
 import shutil
@@ -96,6 +98,39 @@ statechart:
         - guard: idle(2)
           target: r1
 ''',
+    'k3': '''
+statechart:
+  name: k3
+  root state:
+    name: root
+    initial: loop
+    states:
+    - name: loop
+      initial: s1
+      transitions:
+      - event: pause
+        target: paused
+      states:
+      - name: s1
+        transitions:
+        - event: next
+          target: s2
+      - name: s2
+        transitions:
+        - event: next
+          target: s3
+      - name: s3
+        transitions:
+        - event: next
+          target: s1
+      - name: h
+        type: shallow history
+        memory: s1
+    - name: paused
+      transitions:
+      - event: continue
+        target: h
+''',
 }
 ACTIONS = {
     'k1': ['I send event go', 'I send event back', 'I send event end', 'I wait 3 seconds', 'I wait 1 second',
@@ -104,6 +139,7 @@ ACTIONS = {
            'I wait 2 seconds', 'I do nothing', 'I repeat "I send event go" 2 times',
            'I send event set\n      | parameter | value |\n      | amount    | 3     |\n      | extra     | None  |',
            'I send event reset with items=[]', 'I send event add'],
+    'k3': ['I send event next', 'I send event pause', 'I send event continue', 'I do nothing'],
 }
 # library scenarios that 'I reproduce "<name>"' replays (their own then-less run is part of the feature)
 LIBRARY = {
@@ -113,6 +149,12 @@ LIBRARY = {
     'k2': {'prep1': [('given', 'I send event set with amount=2'), ('when', 'I send event go')],
            'prep2': [('when', 'I send event go'), ('when', 'I send event go')],
            'prep3': [('given', 'I send event go')]},
+    # the history memory is written, restored, and written again inside one when-block
+    'k3': {'prep1': [('given', 'I send event pause'), ('when', 'I send event continue'),
+                     ('when', 'I send event next'), ('when', 'I send event pause')],
+           'prep2': [('given', 'I send event next'), ('given', 'I send event pause'),
+                     ('when', 'I send event continue'), ('when', 'I send event next'), ('when', 'I send event pause')],
+           'prep3': [('given', 'I send event next')]},
 }
 THENS = {
     'k1': {'states': ['root', 'a', 'b', 'f'], 'events': ['out', 'timeout', 'nope'],
@@ -126,6 +168,8 @@ THENS = {
            'variables': [('n', '0'), ('n', '2'), ('n', '7'), ('last', '5'), ('last', 'None'), ('basket', '[]'),
                          ('basket', '[1]')],
            'expressions': ['n == 2', 'n > 2', 'last is None', "active('r2')"]},
+    'k3': {'states': ['root', 'loop', 's1', 's2', 's3', 'paused'], 'events': ['nope'], 'event_params': [],
+           'variables': [('zz', '0')], 'expressions': ["active('s2')", "active('paused')"]},
 }
 _SC = {}
 
@@ -187,6 +231,7 @@ class Oracle:
         self.k = k
         self.it = Interpreter(chart(k))
         self.monitored = None
+        self.snaps = None
         self.monitoring = False
 
     def act(self, keyword, text):
@@ -228,12 +273,20 @@ class Oracle:
             if not self.monitoring:
                 self.monitoring = True
                 self.monitored = []
+                self.snaps = []
             self.monitored.extend(steps)
+            # what the macro steps said when they were returned (the facts a verdict is about), kept apart from
+            # the live objects
+            for st in steps:
+                self.snaps.append(types.SimpleNamespace(steps=[types.SimpleNamespace(
+                    entered_states=tuple(ms.entered_states), exited_states=tuple(ms.exited_states),
+                    sent_events=[types.SimpleNamespace(name=e.name, data=copy.deepcopy(dict(e.data)))
+                                 for e in ms.sent_events]) for ms in st.steps]))
 
     def then(self, t):
         """truth of the asserted fact"""
         self.monitoring = False
-        it, mon = self.it, self.monitored
+        it, mon = self.it, self.snaps
         if t[0] == 'state':
             s, pat = t[1], t[2]
             ent = any(s in ms.entered_states for st in mon for ms in st.steps)
@@ -316,6 +369,14 @@ def scenarios(k, tier):
         for a in acts:
             for t in thens:
                 out.append([('given', g), ('when', a), ('then', t)])
+    if k == 'k3':
+        # the history chart: one given step, then when-blocks of three steps (memory written, restored and written
+        # again inside the monitored block)
+        for g in acts:
+            for blk in itertools.product(acts[:3], repeat=3):
+                for t in thens:
+                    if t[0] == 'state':
+                        out.append([('given', g)] + [('when', a) for a in blk] + [('then', t)])
     if tier == 'thorough':      # two given steps
         for g in acts:
             for g2 in acts:
